@@ -78,7 +78,7 @@ fn main() {
             report::quiet_panics();
             match fuzzdec::run_target(&target, &data) {
                 Some(msg) => {
-                    let prop = match target.as_str() { "stream_case" => "C03", "ctor_case" => "C04", "tree_history" => "C09", _ => "C14" };
+                    let prop = match target.as_str() { "stream_case" => "C03", "ctor_case" => "C04", "tree_history" => "C09", "alias_vector" => "C08", "tree_sample" => "C10", _ => "C14" };
                     let prop = args.get(4).cloned().unwrap_or_else(|| prop.to_string());
                     let dst = format!("{}/replays/{}-fuzz-{:08x}.bin", report::verif_dir(), prop, rng::hstr(&msg) & 0xffff_ffff);
                     let _ = std::fs::create_dir_all(format!("{}/replays", report::verif_dir()));
